@@ -239,6 +239,33 @@ class World:
                         ok = False
         return ok
 
+    # ---- C14: a derived property against a freshly created stream in the same state ----------------------
+    def fresh_like(self, x):
+        th = x._thermo
+        if isinstance(x, tmo.MultiStream):
+            y = tmo.MultiStream(None, thermo=th, T=x.T, P=x.P, phases=x.phases)
+            y.imol.data[:] = x.imol.data.to_array()
+        else:
+            y = tmo.Stream(None, thermo=th, T=x.T, P=x.P, phase=x.phase)
+            y.imol.data[:] = x.imol.data.to_array()
+        return y
+
+    def read_diff(self, x, prop):
+        def get(s):
+            try:
+                v = getattr(s, prop)
+                return None if v is None else float(v)
+            except Exception as e:
+                return 'exc:' + type(e).__name__
+        v = get(x)
+        w = get(self.fresh_like(x))
+        if isinstance(v, str) or isinstance(w, str) or v is None or w is None:
+            return 0 if v == w else 2 ** 30
+        if v != v or w != w:
+            return 0 if (v != v and w != w) else 2 ** 30
+        scale = max(abs(v), abs(w), 1e-300)
+        return int(min(abs(v - w) / scale * 1e12, 2 ** 30))
+
     # ---- operations ---------------------------------------------------------------------------------------
     def apply(self, op, a):
         exc = NONE
@@ -250,7 +277,7 @@ class World:
         except Exception as e:
             exc = type(e).__name__
             extra = dict(msg=str(e)[:200])
-        obs = dict(exc=exc, behaves=True, res=[], resT=0)
+        obs = dict(exc=exc, behaves=True, res=[], resT=0, diff=0)
         obs.update(extra)
         if exc == NONE and op in ('copy', 'pickle', 'proxy', 'flow_proxy', 'link_with', 'unlink', 'copy_like'):
             try:
@@ -341,6 +368,8 @@ class World:
             S[a['d']].link_with(S[a['x']], flow=a['flow'], phase=a['phase'], TP=a['TP'])
         elif op == 'unlink':
             S[a['x']].unlink()
+        elif op == 'read':
+            return dict(diff=self.read_diff(S[a['x']], a['prop']))
         elif op == 'construct':
             old = S[a['x']]
             kw = dict(thermo=old._thermo, T=300, P=P_OF[100], price=a['price'],
@@ -355,6 +384,7 @@ class World:
 
 # ---- random operations (TLC decides what is in contract) -------------------------------------------------
 
+PROPS = ['H', 'h', 'S', 'C', 'Cn', 'V', 'kappa', 'mu', 'sigma', 'epsilon', 'Hvap', 'rho', 'Cp', 'alpha', 'nu', 'Pr', 'F_vol', 'Hnet']
 PHASESETS = [['g', 'l'], ['l'], ['L', 'l'], ['g'], ['L', 'g'], ['g', 'l', 's'], ['S', 's'], ['L', 'S', 'g', 'l', 's'], ['s'], ['L']]
 
 
@@ -413,6 +443,8 @@ def random_op(universe, rng, st, ops):
         return op, dict(x=x, p=rng.choice(st['st'][x]['ph']))
     if op in ('copy', 'pickle', 'copy_like', 'proxy', 'flow_proxy'):
         return op, dict(d=x, x=y)
+    if op == 'read':
+        return op, dict(x=x, prop=rng.choice(PROPS))
     if op == 'construct':
         return op, dict(x=x, k=rng.choice(['s', 'm']), price=rng.choice([0, 3, 7]), cf=rng.choice([0, 5, 11]))
     if op == 'link_with':
